@@ -224,6 +224,10 @@ func (g *semGen) stmt(c *semCtx) string {
 			if g.r.Chance(1, 3) {
 				s += ", " + g.atom()
 			}
+			if g.emphasis == "c08" && g.r.Chance(1, 6) {
+				s += ":" // a case with an empty body: matching it runs nothing (not the default)
+				continue
+			}
 			s += ": " + g.stmts(semCtx{depth: c.depth + 1, inLoop: c.inLoop, inFunc: c.inFunc, funcs: c.funcs}, 1+g.r.Intn(2))
 		}
 		if g.r.Bool() {
